@@ -312,13 +312,28 @@ pub fn rec_spec_strategy() -> BoxedStrategy<RecSpec> {
         1 => any::<u64>(),
         1 => prop_oneof![Just(127u64), Just(128), Just(255), Just(256), Just(65535), Just(65536), Just(u32::MAX as u64), Just(u32::MAX as u64 + 1)],
     ];
+    // values of megabytes: everything below the transport / store limit of 5 MiB is a record like any other
+    // (lengths around 1, 2 and 4 MiB and just below 5 MiB; a filled blob keeps generation cheap)
+    let big_len = prop_oneof![
+        (0u32..3, -17i32..=17).prop_map(|(p, d)| ((1u32 << (20 + p)) as i64 + d as i64) as u32),
+        (4096u32..8192).prop_map(|d| 5 * 1024 * 1024 - d),
+    ];
+    let big = (any::<u8>(), big_len, 0..BLS_KEYS, any::<bool>()).prop_map(|(byte, len, owner, pad)| {
+        let data = Blob::Fill { byte, len };
+        if pad {
+            RecSpec::Scratchpad { owner, encoding: 0, data, counter: 1, sig: PadSig::Owner }
+        } else {
+            RecSpec::Chunk { data, forged_address: None }
+        }
+    });
     prop_oneof![
-        3 => (blob_strategy(65_536), proptest::option::weighted(0.3, any::<[u8; 32]>())).prop_map(|(data, forged_address)| RecSpec::Chunk { data, forged_address }),
-        3 => (0..BLS_KEYS, prop_oneof![0u64..3, any::<u64>()], blob_strategy(4096), counters,
+        1 => big,
+        30 => (blob_strategy(65_536), proptest::option::weighted(0.3, any::<[u8; 32]>())).prop_map(|(data, forged_address)| RecSpec::Chunk { data, forged_address }),
+        30 => (0..BLS_KEYS, prop_oneof![0u64..3, any::<u64>()], blob_strategy(4096), counters,
               prop_oneof![2 => Just(PadSig::None), 3 => Just(PadSig::Owner), 1 => (0..BLS_KEYS).prop_map(PadSig::Other)])
             .prop_map(|(owner, encoding, data, counter, sig)| RecSpec::Scratchpad { owner, encoding, data, counter, sig }),
-        2 => proptest::collection::vec(tx_strategy(), 0..4).prop_map(RecSpec::Transactions),
-        2 => (0..BLS_KEYS, any::<[u8; 32]>(), proptest::option::of(proptest::collection::vec(0..BLS_KEYS, 0..3)), proptest::collection::vec(op_strategy(), 0..5))
+        20 => proptest::collection::vec(tx_strategy(), 0..4).prop_map(RecSpec::Transactions),
+        20 => (0..BLS_KEYS, any::<[u8; 32]>(), proptest::option::of(proptest::collection::vec(0..BLS_KEYS, 0..3)), proptest::collection::vec(op_strategy(), 0..5))
             .prop_map(|(owner, meta, writers, ops)| RecSpec::Register { owner, meta, writers, ops }),
     ]
     .boxed()
